@@ -31,7 +31,7 @@ class Via:
 class Contract:
     def __init__(self, file, qual, *, props, params=None, free=None, via=None, requires=(), post=None, loops=None,
                  cover=(), native=None, name=None, clause_props=None, generator=False, notes=(), stubs=None,
-                 callee_contracts=None, bounded_ok=False, ghosts=None, replayer=None, frame=True, max_paths=None, trusted=False):
+                 callee_contracts=None, bounded_ok=False, ghosts=None, replayer=None, consts=None, frame=True, max_paths=None, trusted=False):
         self.file = file
         self.qual = qual
         self.name = name or f"{file}:{qual}"
@@ -55,6 +55,7 @@ class Contract:
         self.max_paths = max_paths
         self.ghosts = dict(ghosts or {})
         self.replayer = replayer
+        self.consts = dict(consts or {})
         if self.name in REGISTRY:
             raise ValueError(f"duplicate contract {self.name}")
         REGISTRY[self.name] = self
